@@ -194,6 +194,28 @@ Theorem C17_text_strip_decor_text : forall fa c dmi mode thr g ls,
 Proof. exact run_text_strip_decor_text. Qed.
 Print Assumptions C17_text_strip_decor_text.
 
+(** the domain holds whenever no shape label and no prefix label contains a blank, no
+    namespace is empty, no property starts with a blank (or is empty), and no printed stem
+    contains ['>'] -- and the last clause follows from instance ids without ['>']
+    ([ns_ok], [nospace], [tok_ok], [stem_ok]: Proofs/DecorProofs.v, Model/DecorDom.v) *)
+Theorem C17_strip_domain_sufficient : forall z dc d shapes,
+  ns_ok (z_ns z) ->
+  Forall (fun sh =>
+            nospace (sh_name sh) = true /\
+            Forall (fun s => tok_ok (s_prop s) = true) (sh_stmts sh) /\
+            (d_dmi dc = true -> forall s, shape_stem d (sh_class sh) = Some (Some s) -> stem_ok s = true)) shapes ->
+  decor_domb z dc d shapes = true.
+Proof. exact decor_domb_sufficient. Qed.
+Print Assumptions C17_strip_domain_sufficient.
+
+Theorem C17_strip_domain_stems : forall c mode g ins d cls s,
+  run_decor_data c true mode g = Some (ins, d) ->
+  well_formed_ids (instances_of ins cls) ->
+  (forall i, In i (instances_of ins cls) -> forallb stem_char_ok i = true) ->
+  shape_stem d cls = Some (Some s) -> stem_ok s = true.
+Proof. exact stem_ok_of_instances. Qed.
+Print Assumptions C17_strip_domain_stems.
+
 (** ** D3 -- what is printed comes from the data.
 
     [run_decor_data c dmi mode g = Some (ins, d)]: [ins] is the tracker's instance
